@@ -173,12 +173,10 @@ func hasClose(tr []string) bool {
 
 // runCase runs program src (described by key) and compares.
 //
-// protected=false is the `unprotected-host-call` family: the reference cannot
-// say what an unprotected embedding call does with the pending variables of
-// the main chunk when an error reaches the host (golua: nothing is closed), so
-// there only the documented convention is checked: every event before the
-// error reaches the host must agree, and handlers of the main chunk's own
-// frames may be missing.
+// protected=false (families unprotected-host-call*): the chunk is called with
+// a plain rt.Call, no context.  The comparison is the same; every difference
+// is keyed `unprotected-host-call ...` and documents golua's convention that
+// an error reaching an unprotected host call closes nothing (NOTES.md, O1).
 func runCase(fam, key, src string, protected bool) core.Outcome {
 	p, err := prog.Parse(src)
 	if err != nil {
